@@ -64,7 +64,7 @@ func faultVectors(sends, maxFaults int) []faultVec {
 	out := []faultVec{{}}
 	if maxFaults >= 1 {
 		for i := 0; i < sends; i++ {
-			for k := 1; k <= 4; k++ {
+			for k := 1; k < nFaultKinds; k++ {
 				out = append(out, faultVec{i: k})
 			}
 		}
@@ -72,8 +72,8 @@ func faultVectors(sends, maxFaults int) []faultVec {
 	if maxFaults >= 2 {
 		for i := 0; i < sends; i++ {
 			for j := i + 1; j < sends; j++ {
-				for k := 1; k <= 4; k++ {
-					for l := 1; l <= 4; l++ {
+				for k := 1; k < nFaultKinds; k++ {
+					for l := 1; l < nFaultKinds; l++ {
 						out = append(out, faultVec{i: k, j: l})
 					}
 				}
@@ -214,10 +214,15 @@ func init() {
 	rule := "deterministic fair executions (discrete-event virtual time: timers, tickers, deadlines and sleeps fire in due-time order) of the real replication.Primary (on a real engine, registered as log observer, heartbeat and poll loops running) and the real replication.Replica (state machine, batch applier, engine applier on a second real read-only engine) over an in-memory link that replaces gRPC; 16 scenarios = {single writes incl. delete, a 3-entry transaction, flushes with log rotation} x replica joins before / during / after the writes or is restarted x {default primary configuration, no compression}; for each, every fault vector with <=1 fault (quick) / <=2 faults (thorough) from {drop, duplicate, reorder, connection break} on the first 10 stream messages. "
 	fw.Register(&fw.Check{
 		ID: "C13", Level: "model_checking",
-		Rule:        rule + "Oracle C13: the sequence of entries handed to the replica's engine (recording applier) equals the primary's log, in order, none skipped, none applied twice; the reported applied sequence never decreases and never exceeds the highest applied entry. Non-trivial = executions with at least one fault",
-		Assumptions: []string{"gRPC is replaced by an in-memory stream with the same blocking behaviour (bounded window) and message copying", "timer races are not explored in these runs (due-time order); they are explored in the explore-based checks"},
-		Units:       repUnits,
-		Run:         func(unit string, env *fw.Env) *fw.Result { return repUnit("C13", unit, env) },
+		Rule:        rule + "Oracle C13: the sequence of entries handed to the replica's engine (recording applier) equals the primary's log, in order, none skipped, none applied twice; the reported applied sequence never decreases and never exceeds the highest applied entry. Non-trivial = executions with at least one fault. Part B (every delivery sequence): explicit-state search over the real WALBatchApplier and over the real Replica message handler; a transition delivers one batch [i..j] of a 5-sequence history (15 batches of whole sequences, one a two-entry transaction, real wire encoding), successors by replay on a fresh instance, state = (entries applied, expected next, reported sequence), depth 5 quick / 7 thorough; after every delivery: applied entries = history prefix in order exactly once, reported sequence monotone and not ahead, a batch that continues at the expected sequence is applied completely, any other batch applies nothing and leaves the position alone, a forward gap is answered with a retransmission request from the expected sequence",
+		Assumptions: []string{"gRPC is replaced by an in-memory stream with the same blocking behaviour (bounded window) and message copying", "part B delivers batches of whole sequences only (a transaction is not split across messages)", "timer races are not explored in these runs (due-time order); they are explored in the explore-based checks"},
+		Units:       func(tier string) []string { return append([]string{"deliveries/applier", "deliveries/replica"}, repUnits(tier)...) },
+		Run: func(unit string, env *fw.Env) *fw.Result {
+			if strings.HasPrefix(unit, "deliveries/") {
+				return delivUnit(unit, env)
+			}
+			return repUnit("C13", unit, env)
+		},
 		Replay:      func(v *fw.Violation) string { b, _ := json.Marshal(v.Witness); return "re-run: kvcheck one C13 quick " + v.Unit + "\nwitness: " + string(b) },
 		BudgetQuick: 110, BudgetThorough: 900,
 	})
@@ -243,7 +248,22 @@ func DebugRep(name string, maxSteps int) string {
 			s := vsched.Run(vsched.Config{Bound: 0, Timed: true, MaxSteps: maxSteps, Trace: true}, func() {})
 			_ = s
 			debugMaxSteps = maxSteps
-			r, out, detail := runRep(dir, sc, nil)
+			var fv faultVec
+			if f := os.Getenv("VERIF_FAULTS"); f != "" {
+				// e.g. "2:dup-late,3:drop"
+				fv = faultVec{}
+				for _, p := range strings.Split(f, ",") {
+					var i int
+					var k string
+					fmt.Sscanf(strings.Replace(p, ":", " ", 1), "%d %s", &i, &k)
+					for ki, n := range faultNames {
+						if n == k {
+							fv[i] = ki
+						}
+					}
+				}
+			}
+			r, out, detail := runRep(dir, sc, fv)
 			return fmt.Sprintf("outcome %v %s\nlog:\n  %s\napplied %v\nhistory %v\nconverged %v primary %v replica %v\ntrace tail:\n  %s", out, clipS(detail, 300), strings.Join(r.Log, "\n  "), r.Applied, r.History, r.Converged, r.Primary, r.Replica, strings.Join(tailS(debugTrace, 80), "\n  "))
 		}
 	}
